@@ -40,6 +40,13 @@ func genC18Hook(t *rapid.T) c18HookCase {
 		text = pick(t, nonJSONTexts, "nonjson")
 	default:
 		g := smallGraph(t)
+		// values whose printed form depends on how the output is encoded
+		raw := []m.Lit{m.S("a<b&c>d"), m.S("quote\" and \\ backslash"), m.S("é中😀"), m.S("line1\nline2\ttab"), m.I(9007199254740993), m.I(-1), m.Fl(0.1), m.Fl(1e21), m.S("</script>")}
+		for _, n := range g.Nodes {
+			for _, l := range subset(t, raw, 0, 3, "raw") {
+				n.AddVal(m.NS+"raw", m.LV(l))
+			}
+		}
 		text = g.JSONLD(genLDOpts(t, len(g.Nodes)))
 	}
 	return c18HookCase{Cmd: "normalize", Text: text}
